@@ -4,7 +4,7 @@
      (1 prefix call script precancelled requests result) one API call against a scripted peer
    call    = (tag args...) in the order of api_call's constructors; time = (sec nsec);
    opt     = (0 ns) timeout | (1 ns) lookback | (2 str) stats | (3 n) limit
-   script  = list of (0 code parsed?) | (1) drop | (2) cancel before header | (3 code) cancel in body
+   script  = list of (0 code parsed?) | (1) drop | (2) cancel before header | (3 code) cancel in body | (4 code) transport fails in body
    parsed  = () | ((status errorType error (warnings...) data_ok))
    request = (post path-segments query form form-content-type); pair = (key value);
    value   = (0 bytes) | (1 float-bits) | (2 nanoseconds)
@@ -86,6 +86,7 @@ Definition d_beh (s : sx) : option behaviour :=
   | SL [SZ 1] => Some SDrop
   | SL [SZ 2] => Some SCancelHdr
   | SL [SZ 3; SZ code] => Some (SCancelBody code)
+  | SL [SZ 4; SZ code] => Some (SCutBody code)
   | _ => None
   end.
 
